@@ -1,6 +1,6 @@
 (* Checkers evaluated by the correspondence run: each returns the indices of
    the cases on which the model and the implementation's observed output differ. *)
-From V Require Import Common.Base C18.Pieces C18.Hash C18.XXHash C18.Escape.
+From V Require Import Common.Base C17.WriteSM C17.PathModel C18.Pieces C18.Hash C18.XXHash C18.Escape C18.Paths.
 
 Fixpoint mism_from {A} (f : A -> bool) (l : list A) (i : nat) : list nat :=
   match l with
@@ -87,3 +87,14 @@ Definition check_final := mismatches final_ok.
 Definition name_ok (c : list (bytes * Z) * option bytes * bytes) : bool :=
   let '(t, hs, g) := c in zlist_eqb (final_name t hs) g.
 Definition check_name := mismatches name_ok.
+
+(* pathBetweenChunks / joinWithPublicPath on fs.RealFS:
+   (public path, fromRelDir, toRelPath, Go pathBetweenChunks, Go joinWithPublicPath(public, toRelPath),
+    Go fs.Dir(toRelPath), Go fs.Join(fromRelDir, result) when there is no public path else []) *)
+Definition path_ok (c : bytes * bytes * bytes * bytes * bytes * bytes * bytes) : bool :=
+  let '(public, dir, to, g, gj, gdir, gjoin) := c in
+  zlist_eqb (path_between public dir to) g
+  && zlist_eqb (join_with_public_path public to) gj
+  && zlist_eqb (fs_dir to) gdir
+  && match public with [] => zlist_eqb (fs_join dir g) gjoin | _ => true end.
+Definition check_path := mismatches path_ok.
